@@ -86,6 +86,8 @@ def gen_addr(rnd, family=None):
             b[1] = 1
         form = rnd.choice(["0::ffff:%d.%d.%d.%d", "0::%d.%d.%d.%d", "0:0:0:0:0:ffff:%d.%d.%d.%d"])
         txt = form % tuple(b)
+        if rnd.random() < 0.2:
+            txt = txt.upper()
         return txt, addr_value(txt)
     def digits(n):
         lo = [0, 1, 0x10, 0x100, 0x1000][n]
@@ -115,6 +117,9 @@ def gen_addr(rnd, family=None):
         groups[0] = 1       # would be an IPv4-mapped/-compatible form: covered by the branch above
     style = rnd.choice(["canon", "canon", "full", "anyrun", "pad"])
     txt = groups_to_text(groups, rnd, style)
+    if rnd.random() < 0.2:
+        # hex digits in upper or mixed case denote the same address
+        txt = txt.upper() if rnd.random() < 0.5 else "".join(c.upper() if rnd.random() < 0.5 else c for c in txt)
     val = b"".join(g.to_bytes(2, "big") for g in groups)
     assert addr_value(txt) == val, (txt, groups)
     return txt, val
